@@ -220,6 +220,13 @@ func (t *textReader) nextBeforeFieldName() (bool, error) {
 // BeforeTypeAnnotations state.
 func (t *textReader) nextBeforeTypeAnnotations() (bool, error) {
 	tok := t.tok.Token()
+	if len(t.annotations) > 0 {
+		switch tok {
+		case tokenEOF, tokenCloseBracket, tokenCloseParen, tokenCloseBrace:
+			// Annotations must be followed by a value.
+			return false, &SyntaxError{"annotations without a value", t.tok.Pos() - 1}
+		}
+	}
 	switch tok {
 	case tokenEOF:
 		if t.ctx.peek() == ctxAtTopLevel {
